@@ -315,6 +315,38 @@ pub fn capsweep_seeds(out: &mut Vec<Seed>) {
             out.push(seed(format!("synth:cap/dict-real-{lead}-nibbles={digits}"), None, "psblob", [0, 0, 2], d, vec![]));
         }
     }
+    // meta script/language tag lists (VarLenArray with a hand-written VarSize): indexed access vs iteration
+    let meta_ty = crate::registry::find("meta::Meta");
+    let misc_tag = u32::from_be_bytes(*b"meta");
+    for (label, text) in [
+        ("empty", ""),
+        ("one", "en"),
+        ("two", "en,fr"),
+        ("spaces", "en-Latn, fr-Latn, zh-Hans"),
+        ("trailing-comma", "en,fr,"),
+        ("only-commas", ",,,"),
+        ("long", "aa,bb,cc,dd,ee,ff,gg,hh,ii,jj,kk,ll,mm,nn,oo,pp,qq,rr,ss,tt"),
+    ] {
+        for map_tag in [b"dlng", b"slng"] {
+            let mut m = vec![];
+            be32(&mut m, 1);
+            be32(&mut m, 0);
+            be32(&mut m, 0);
+            be32(&mut m, 1);
+            m.extend_from_slice(map_tag);
+            be32(&mut m, 28);
+            be32(&mut m, text.len() as u32);
+            m.extend_from_slice(text.as_bytes());
+            out.push(seed(
+                format!("synth:cap/meta-{}-{label}", String::from_utf8_lossy(map_tag)),
+                meta_ty,
+                "misc",
+                [0, 0, misc_tag],
+                m,
+                vec![],
+            ));
+        }
+    }
     // avar 2 coordinate buffer: 64 axes
     let fvar_ty = crate::registry::find("fvar::Fvar");
     for n in [1u16, 63, 64, 65, 100] {
